@@ -523,13 +523,16 @@ def run_reuse(args: list, cwd: str | os.PathLike | None = None, env: dict | None
         os.environ.update(old_env)
 
 
-def run_reuse_subprocess(args: list, cwd=None, env: dict | None = None, timeout: int = 120) -> dict:
+C_LOCALE_ENV = {"LC_ALL": "C", "LANG": "C", "PYTHONUTF8": "0", "PYTHONCOERCECLOCALE": "0"}
+
+
+def run_reuse_subprocess(args: list, cwd=None, env: dict | None = None, timeout: int = 120, script: str | None = None) -> dict:
     e = dict(os.environ)
     e["PYTHONPATH"] = str(REPO / "src")
     if env:
         e.update(env)
     try:
-        p = subprocess.run([sys.executable, "-m", "reuse", *[str(a) for a in args]], cwd=cwd, env=e,
+        p = subprocess.run([sys.executable, *([script] if script else ["-m", "reuse"]), *[str(a) for a in args]], cwd=cwd, env=e,
                            capture_output=True, text=True, timeout=timeout)
     except subprocess.TimeoutExpired:
         # a command that does not terminate is an observation, not a failure of the machinery
